@@ -761,3 +761,66 @@ Proof.
   - intros E. inversion E; subst z. pose proof (others_priv_lt g ls a la _ IB Ea Hz). lia.
   - intros E. apply Hat. apply (b_priv _ _ IB a t z); [rewrite (pcof_at _ _ _ Ea); exact Hz|rewrite (pcof_at _ _ _ Hl); auto].
 Qed.
+
+(* ---------- the references of the stepping thread ---------- *)
+Lemma incl_nil_eq (a : list nat) : (forall c, In c a -> False) -> a = [].
+Proof. destruct a as [|x r]; [reflexivity|]. intros H. exfalso. apply (H x). left. reflexivity. Qed.
+
+Lemma refs_sub g ls t l l' : InvC g ls -> nth_error ls t = Some l -> hnd l' = hnd l ->
+  (forall c, In c (nrefs l') -> In c (nrefs l)) ->
+  (forall w r, hnd l' = Some (w, Some r) -> hnd l = Some (w, Some r) /\ forall c, In c (nrefs l') -> covers g ls r c) /\
+  ((forall w r, hnd l' <> Some (w, Some r)) -> nrefs l' = []).
+Proof.
+  intros IC Hl Hh Hs. split.
+  - intros w r E. rewrite Hh in E. split; [exact E|]. intros c Hc. apply (c_refs _ _ IC t l w r Hl E c (Hs c Hc)).
+  - intros Hn. apply incl_nil_eq. intros c Hc. apply Hs in Hc. rewrite (c_noref _ _ IC t l Hl) in Hc; [destruct Hc|rewrite <- Hh; exact Hn].
+Qed.
+
+(* new references: a node of the list, or the successor of a node the thread already refers to *)
+Lemma refs_new g ls t l l' : InvA g ls -> InvB g ls -> InvC g ls -> nth_error ls t = Some l -> hnd l' = hnd l ->
+  (exists w r, hnd l = Some (w, Some r)) ->
+  (forall c, In c (nrefs l') -> In c (nrefs l) \/ In c (lst g) \/ exists k, In k (nrefs l) /\ nx g k = Some c) ->
+  (forall w r, hnd l' = Some (w, Some r) -> hnd l = Some (w, Some r) /\ forall c, In c (nrefs l') -> covers g ls r c) /\
+  ((forall w r, hnd l' <> Some (w, Some r)) -> nrefs l' = []).
+Proof.
+  intros IA IB IC Hl Hh (w0 & r0 & Hr) Hs. split.
+  - intros w r E. rewrite Hh in E. split; [exact E|]. intros c Hc.
+    destruct (b_own1 _ _ IB t w r) as (A & B & C); [rewrite (locof_at _ _ _ Hl); exact E|].
+    destruct (Hs c Hc) as [H|[H|(k & Hk & Hn)]].
+    + apply (c_refs _ _ IC t l w r Hl E c H).
+    + left. exact H.
+    + assert (inlog g r) as Ir by (split; [exact A|congruence]). assert (zown g r <> None) as Or by congruence.
+      apply (c_cov _ _ IC r Ir Or k c (c_refs _ _ IC t l w r Hl E k Hk) Hn).
+  - intros Hn. exfalso. apply (Hn w0 r0). rewrite Hh. exact Hr.
+Qed.
+(* a thread that has iterators or node registers is registered *)
+Lemma refs_registered g ls t l c : InvC g ls -> nth_error ls t = Some l -> In c (nrefs l) -> exists w r, hnd l = Some (w, Some r).
+Proof.
+  intros IC Hl Hc. destruct (hnd l) as [[w [r|]]|] eqn:E; [eauto| |];
+    (rewrite (c_noref _ _ IC t l Hl) in Hc; [destruct Hc|intros w' r' E'; rewrite E in E'; discriminate]).
+Qed.
+
+Lemma InvC_frameV2 g g' ls t l l' (x : option nat) :
+  InvA g ls -> InvB g ls -> InvC g ls -> nth_error ls t = Some l -> sameV g g' x ->
+  enode g' (upd ls t l') = enode g ls ->
+  (forall n, pnode (hpc g' (upd ls t l')) = Some n -> cs_of g' n = Some Constr) ->
+  (forall z, past_dd (at_ l) z = true -> past_dd (at_ l') z = true) ->
+  (forall k, x = Some k -> ~ In k (lst g) /\ enode g ls <> Some k /\ (forall z, In z (zlog g) -> znd g z <> Some k)) ->
+  ((forall w r, hnd l' = Some (w, Some r) -> hnd l = Some (w, Some r) /\ forall c, In c (nrefs l') -> covers g ls r c) /\
+   ((forall w r, hnd l' <> Some (w, Some r)) -> nrefs l' = [])) ->
+  thrC g' l' ->
+  InvC g' (upd ls t l').
+Proof. intros ? ? ? ? ? ? ? ? ? [? ?] ?. eapply InvC_frameV; eauto. Qed.
+
+(* non-holder steps: the holder's pc and everything it depends on is untouched *)
+Lemma nh_views g g' ls t l l' zc : InvA g ls -> InvB g ls -> InvC g ls -> nth_error ls t = Some l ->
+  holds (at_ l) = false -> holds (at_ l') = false -> wmtx g' = wmtx g -> recsame g g' zc ->
+  (zc = None \/ zc = Some (nheap g) \/ zc = priv_rec (at_ l)) ->
+  (forall k, isnode g k = true -> cs_of g' k = cs_of g k) ->
+  enode g' (upd ls t l') = enode g ls /\ (forall n, pnode (hpc g' (upd ls t l')) = Some n -> cs_of g' n = Some Constr).
+Proof.
+  intros IA IB IC Hl Hh Hh' Hm S Hzc Hcs.
+  destruct (enode_other g g' ls t l l' IA Hl Hh Hm (znd_other_priv g g' ls t l zc IA IB Hl Hh S Hzc)) as [E1 E2].
+  split; [exact E2|]. intros n Hn. rewrite E1 in Hn. destruct (pnode_fresh g ls n IA Hn) as (_ & _ & Hi).
+  rewrite (Hcs n Hi). apply (c_pn _ _ IC n Hn).
+Qed.
